@@ -28,6 +28,57 @@ CLAIMED = {
         'KNOWN-FINDING, see known_findings.json.'),
 }
 
+CLAIMED.update({
+    'C02': dict(
+        level='exploration', ref='DESIGN.md section 4 C02',
+        technique=TECH + 'trait-labelled images x chunk schedules x '
+        'truncation points x faults injected into safety-check bodies and '
+        'into the file behind the CLI; trait-based reference verdict and '
+        'structural fail-closed invariant',
+        text='Seeded search: images generated from layout models with '
+        'safe/unsafe trait values carry a reference label taken from the '
+        'property statement (must-reject / must-accept / none); they are '
+        'streamed through the real inspectors, InspectWrapper, '
+        'detect_file_format (open() seam: short reads, EIO) and cli.main '
+        '(in-process; a sample as real subprocess) under seeded schedules '
+        'with truncation at structure boundaries; every registered check '
+        'body is replaced by raising callables. Asserted: nothing labelled '
+        'must-reject or incomplete is accepted, clean images are accepted, a '
+        'check error is a failure of that check, exit 0 only on success.',
+        note='Trusted: the trait labels in models/traits.py (qcow2 '
+        'incompatible bits >= 4 unknown, bit 2 data file). Only the '
+        'directions the statement gives are asserted; a rejected unlabelled '
+        'image is never an alarm.'),
+    'C05': dict(
+        level='exploration', ref='DESIGN.md section 4 C05',
+        technique=TECH + 'hostile multi-MiB streams x chunk schedules; '
+        'invariant on retained bytes after every simulated chunk',
+        text='Seeded search over multi-MiB streams whose length/count/offset '
+        'fields are driven to boundary and maximal values, delivered under '
+        'seeded schedules including one giant chunk; after every chunk and '
+        'after finish() the bytes reported by context_info must stay under '
+        '1.5 MiB (vmdk) / 512 KiB (others). Streams are longer than the '
+        'bound past the structure concerned so an unbounded capture shows.',
+        note='Trusted: context_info reports what is retained (the property '
+        'is stated in terms of it).'),
+    'C07': dict(
+        level='exploration', ref='DESIGN.md section 4 C07',
+        technique=TECH + 'layouts x declared sizes x chunk schedules with '
+        'the size sampled after every chunk (every EOF point) against the '
+        'size the layout model declares',
+        text='Seeded search: well-formed images of every format with declared '
+        'sizes over the field range and all admissible layouts are streamed '
+        'under seeded schedules; virtual_size is sampled after every chunk '
+        '(each presented prefix) and after finish(), and for boundary '
+        'prefixes with finish(): it must equal the declared size at the end, '
+        'be 0 before the last byte of the size field has arrived and never '
+        'be anything but 0 or the declared size in between.',
+        note='Trusted: the layout models put the size where the format '
+        'specifications put it.'),
+})
+CLAIMED = {k: v for k, v in CLAIMED.items()
+           if os.path.exists(os.path.join(HERE, 'checks', k.lower() + '.py'))}
+
 NOT_APPLICABLE = {
     'C04': 'mask_password is a pure function of one string (regex rewriting, '
            'read-only tables): no stream, clock, scheduler, I/O or shared '
